@@ -45,6 +45,7 @@ type enumCase struct {
 	Unknown   string            // policy
 	Fail      string            // non-empty: generation must fail, with this note
 	NoEnum    bool              // enum detection off / excluded: plain basic copy
+	SameType  bool              // the source enum type on both sides (Tgt repeats Src)
 	ExtraConv []string
 }
 
@@ -100,6 +101,19 @@ func enumCases() []enumCase {
 		{Name: "int64_lowbits", Src: rgb("int64", "1152921504606846977", "1152921504606846978", "1152921504606846979"), Tgt: rgb("int", "1", "2", "3"), Mapping: same},
 		{Name: "uint64_lowbits", Src: rgb("uint64", "18446744073709551613", "18446744073709551614", "18446744073709551615"), Tgt: rgb("string", `"a"`, `"b"`, `"c"`), Mapping: same},
 		{Name: "int64_lowbits_negative", Src: rgb("int64", "-9007199254740993", "-9007199254740992", "-9007199254740994"), Tgt: rgb("int8", "1", "2", "3"), Mapping: same},
+		// the transformer's answer has precedence over a target member that happens to carry the source name
+		{Name: "transform_beats_same_name", Src: enumDef{"int", []enumMember{{"Max", "0"}, {"Min", "1"}, {"Mid", "2"}}},
+			Tgt:     enumDef{"int", []enumMember{{"LevelMax", "5"}, {"LevelMin", "6"}, {"LevelMid", "7"}, {"Max", "8"}, {"Mid", "9"}}},
+			Lines:   []string{`enum:transform regex (\w+) Level$1`},
+			Mapping: map[string]string{"Max": "LevelMax", "Min": "LevelMin", "Mid": "LevelMid"}},
+		// one enum type on both sides (no skipCopySameType): still a member-wise switch with the unknown policy
+		{Name: "sametype", Src: rgb("int", "1", "2", "3"), Tgt: rgb("int", "1", "2", "3"), SameType: true, Mapping: same},
+		{Name: "sametype_string", Src: rgb("string", `"r"`, `"g"`, `"b"`), Tgt: rgb("string", `"r"`, `"g"`, `"b"`), SameType: true, Mapping: same},
+		{Name: "sametype_map_swap", Src: rgb("int", "1", "2", "3"), Tgt: rgb("int", "1", "2", "3"), SameType: true,
+			Lines: []string{"enum:map Red Blue"}, Mapping: map[string]string{"Red": "Blue", "Green": "Green", "Blue": "Blue"}},
+		{Name: "fail_sametype_no_unknown", Src: rgb("int", "1", "2", "3"), Tgt: rgb("int", "1", "2", "3"), SameType: true, Mapping: same, Unknown: "none", Fail: "enum:unknown missing (same enum type on both sides)"},
+		{Name: "fail_sametype_map_missing_key", Src: rgb("int", "1", "2", "3"), Tgt: rgb("int", "1", "2", "3"), SameType: true,
+			Lines: []string{"enum:map Purple Red"}, Mapping: same, Fail: "enum:map key Purple does not exist (same enum type on both sides)"},
 		// must fail
 		{Name: "fail_unmapped_member", Src: enumDef{"int", []enumMember{{"Red", "0"}, {"Green", "1"}, {"Teal", "2"}}}, Tgt: rgb("int", "7", "8", "9"),
 			Mapping: same, Fail: "source member Teal has no target"},
@@ -228,6 +242,10 @@ func randomEnumCases(n int) []enumCase {
 				lines[li] = "enum:map " + ren(f[1]) + " " + t
 			}
 			lines = append([]string{`enum:transform regex _([A-Z]) $1`}, lines...)
+			if rng.Intn(2) == 0 {
+				// the target also declares a member under the source's spelling: the transformer still decides
+				tgt.Members = append(tgt.Members, enumMember{ren(names[1]), lit(tunder, 41)})
+			}
 			names = []string{ren("Red"), ren("Green"), ren("Blue"), ren("Alpha"), ren("Teal")}
 		}
 		out = append(out, enumCase{Name: fmt.Sprintf("rnd%02d", i), Src: src, Tgt: tgt, Lines: lines, Mapping: mapping, ExtraConv: extraConv})
@@ -326,6 +344,9 @@ func FamilyEnum(thorough bool) []*Conv {
 				}
 				methodLines = append(methodLines, ec.Lines...)
 				srcT, tgtT := "pfxsrc.Color", "pfxtgt.Color"
+				if ec.SameType {
+					tgtT = srcT
+				}
 				decls := ""
 				spec := &Spec{Enums: map[string]*EnumSpec{"Color→Color": es}}
 				if ec.NoEnum {
@@ -396,6 +417,10 @@ func FamilyEnum(thorough bool) []*Conv {
 					Imports:    []string{`pfxsrc "corpus/GRP/pfxsrc"`, `pfxtgt "corpus/GRP/pfxtgt"`},
 					ExpectFail: ec.Fail != "",
 					FailNote:   ec.Fail,
+				}
+				if ec.SameType {
+					delete(cv.Aux, "pfxtgt")
+					cv.Imports = cv.Imports[:1]
 				}
 				if extra != "" {
 					if cv.Format != "variable" {
